@@ -41,7 +41,11 @@ RULE = ('(a) chains of 4..14 blocks with transaction counts drawn from {1,2,3,5,
         '(b) C10\'s generated histories with proof requests fired inside reorg windows (header '
         'read delivered late); window replies must verify against a chain the daemon had; at every '
         'quiesce all (h, cp) header proofs and one tx proof per block verify against the current '
-        'chain. Non-trivial (a) = a proof served through the per-block MerkleCache (>= 200 txs); '
+        'chain. (a\') blocks of >= 200 transactions whose proofs were served (per-height MerkleCache '
+        'populated) are replaced by a reorganisation with other large blocks at the same heights; '
+        'all proofs for the new blocks verify against the new headers. Non-trivial (a) = a proof '
+        'served through the per-block MerkleCache (>= 200 txs); (a\') = a cached large block '
+        'replaced by a large block at the same height; '
         '(b) = a proof request in flight across a block backup.')
 ASSUMPTIONS = c07.ASSUMPTIONS + ['padding transactions are generation-like (the merkle logic only '
                                  'sees their hashes)']
@@ -237,6 +241,105 @@ def run_static(scratch, case):
         return f'server stuck: {e}', 'stuck', info
     if failure:
         return failure[0], 'proof', info
+    return None, None, info
+
+
+# ---- (a') large blocks replaced by a reorganisation ---------------------------------------------------
+
+LARGE = [200, 201, 255, 256, 257, 300, 400]
+BIGREORG_CASE = st.builds(
+    lambda base, old, new, nonce, warm: {'base': base, 'old': old, 'new': new, 'nonce': nonce,
+                                         'warm': warm},
+    st.lists(st.integers(1, 4), min_size=2, max_size=4),
+    st.lists(st.sampled_from(LARGE) | st.integers(1, 5), min_size=1, max_size=3),
+    st.lists(st.sampled_from(LARGE), min_size=1, max_size=4),
+    st.integers(0, 1000), st.integers(0, 3))
+
+
+def run_bigreorg(scratch, case):
+    '''Blocks of >= 200 transactions are served through a per-height MerkleCache kept by the
+    session manager; after the blocks at those heights are replaced, proofs must be for the new
+    blocks.'''
+    world = W.World(activation=3)
+
+    def desc(i, n):
+        return {'cb': [[0, 0]], 'nonce': case['nonce'] + i, 'coll': None, 'txs': [], 'pad': n - 1}
+    for i, n in enumerate(case['base'] + case['old']):
+        world.extend([desc(i, n)])
+    coin = make_coin(3, 4)
+    info = {'proofs': 0, 'cached_before': 0, 'cached_after': 0, 'same_height_large': 0}
+    failure = []
+
+    async def proofs(c, chain, heights, rounds, key):
+        for b in chain:
+            if b.height not in heights:
+                continue
+            n = len(b.txs)
+            positions = range(n) if n <= 8 else sorted({0, 1, n // 2, n - 2, n - 1})
+            for rnd in range(rounds):
+                for pos in positions:
+                    txh = W.hexrev(b.txs[pos].txid)
+                    for method, params in (('blockchain.transaction.get_merkle', [txh, b.height]),
+                                           ('blockchain.transaction.id_from_pos',
+                                            [b.height, pos, True])):
+                        r = await c.call(method, params)
+                        res = r.get('result')
+                        info['proofs'] += 1
+                        if n >= 200:
+                            info[key] += 1
+                        if not isinstance(res, dict) or res.get('pos', pos) != pos or \
+                                res.get('tx_hash', txh) != txh:
+                            failure.append(f'{method}{params} ({key}) = {str(r)[:200]}')
+                            return False
+                        msg = check_tx_proof(b, pos, res['merkle'],
+                                             f'{method.split(".")[-1]}({b.height},{pos}) of {n} txs '
+                                             f'({key.replace("cached_", "")} the reorganisation)')
+                        if msg:
+                            failure.append(msg)
+                            return False
+        return True
+
+    async def main(loop):
+        server = Server(fresh_dir(scratch), world, coin)
+        try:
+            await server.start()
+            c = server.connect()
+            await c.call('server.version', ['x', '1.4.2'])
+            await server.quiesce()
+            old_chain = world.chain()
+            k = len(case['old'])
+            old_heights = {b.height for b in old_chain[-k:]}
+            warm = case['warm']
+            if warm and not await proofs(c, old_chain, old_heights, warm, 'cached_before'):
+                return
+            # (a reorganisation is to a chain with more work: strictly longer here)
+            new = case['new'] + [1] * max(0, k + 1 - len(case['new']))
+            world.fork(k, [desc(100 + i, n) for i, n in enumerate(new)])
+            await asyncio.sleep(6)
+            await server.quiesce()
+            new_chain = world.chain()
+            if server.db.state.height != len(new_chain) - 1:
+                return failure.append(f'server at height {server.db.state.height} after the '
+                                      f'reorganisation, daemon at {len(new_chain) - 1}')
+            new_heights = {b.height for b in new_chain[len(old_chain) - k:]}
+            info['same_height_large'] = sum(
+                1 for b in new_chain if b.height in old_heights and len(b.txs) >= 200
+                and len(old_chain[b.height].txs) >= 200)
+            await proofs(c, new_chain, new_heights, 2, 'cached_after')
+        finally:
+            try:
+                await server.stop()
+            finally:
+                server.close()
+
+    try:
+        run_sim(main, vt_deadline=100000, max_iterations=20_000_000)
+    except ServerDied as e:
+        return f'server died: {e}', 'server_died', info
+    except (ServerStuck, NoConvergence, SimDeadlock, SimTimeout) as e:
+        return f'server stuck: {e}', 'stuck', info
+    if failure:
+        return failure[0], 'proof_after_reorg', info
     return None, None, info
 
 
@@ -436,6 +539,21 @@ def body_static(ctx):
     return run
 
 
+def body_bigreorg(ctx):
+    def run(case):
+        msg, sig, info = run_bigreorg(ctx.scratch, case)
+        nt = info['cached_before'] > 0 and info['same_height_large'] > 0
+        ctx.record(case=case, nontrivial=nt,
+                   classes=['bigreorg'] + (['bigreorg.cached_block_replaced_by_large_block'] if nt
+                                           else []),
+                   sample={'check': 'c11.bigreorg', 'old': case['old'], 'new': case['new'],
+                           'proofs': info['proofs']})
+        ctx.extra['proofs_verified'] = ctx.extra.get('proofs_verified', 0) + info['proofs']
+        if msg:
+            raise Violation(msg, sig)
+    return run
+
+
 def body_dynamic(ctx):
     def run(case):
         msg, sig, info = run_dynamic(ctx.scratch, case)
@@ -452,12 +570,15 @@ def body_dynamic(ctx):
 
 def run(ctx):
     hyp_run(ctx, 'c11.static', STATIC_CASE, body_static(ctx), ctx.pick(6, 150))
+    hyp_run(ctx, 'c11.bigreorg', BIGREORG_CASE, body_bigreorg(ctx), ctx.pick(4, 100))
     hyp_run(ctx, 'c11.dynamic', case_strategy(True), body_dynamic(ctx), ctx.pick(120, 2500))
 
 
 def replay(ctx, check, case):
     if check == 'c11.static':
         msg, sig, _ = run_static(ctx.scratch, case)
+    elif check == 'c11.bigreorg':
+        msg, sig, _ = run_bigreorg(ctx.scratch, case)
     else:
         msg, sig, _ = run_dynamic(ctx.scratch, case)
     return (msg, sig) if msg else None
